@@ -843,6 +843,9 @@ class Channel(ClosingContextManager):
         """
         while s:
             sent = self.send(s)
+            if sent == 0:
+                # closed, or shut down for writing, while data was left
+                raise socket.error("Socket is closed")
             s = s[sent:]
         return None
 
@@ -864,6 +867,8 @@ class Channel(ClosingContextManager):
         """
         while s:
             sent = self.send_stderr(s)
+            if sent == 0:
+                raise socket.error("Socket is closed")
             s = s[sent:]
         return None
 
@@ -960,6 +965,8 @@ class Channel(ClosingContextManager):
             self.lock.acquire()
             try:
                 m = self._send_eof()
+                # senders waiting for window must notice that writing is over
+                self.out_buffer_cv.notify_all()
             finally:
                 self.lock.release()
             if m is not None and self.transport is not None:
